@@ -6,7 +6,7 @@ for cb, nm in (('silk_NLSF_CB_WB', 'wb'), ('silk_NLSF_CB_NB_MB', 'nbmb')):
          defines=['-DVERIF_CB=' + cb], functions=['silk_NLSF_stabilize', 'silk_insertion_sort_increasing_all_values_int16'], canary='real',
          what='silk_NLSF_stabilize on every int16[%s.order] input: ordered output with minimum spacing; outer loop by contract (havoc), inner loops unwound 18' % cb,
          timeout=600))
-META = {}
+META = {'cex': {'self': True, 'timeout': 1200, 'unwind': 22}}
 for cb, nm in (('silk_NLSF_CB_WB', 'wb'), ('silk_NLSF_CB_NB_MB', 'nbmb')):
     GROUPS.append(dict(name='nlsf_decode_' + nm, cls='P', tu='C18_nlsf_decode.c', entry='h_nlsf_decode', unwind=18, canary='real',
          defines=['-DVERIF_CB=' + cb], functions=['silk_NLSF_decode', 'silk_NLSF_unpack', 'silk_NLSF_residual_dequant', 'silk_NLSF_stabilize'],
